@@ -1,5 +1,5 @@
 \* THOROUGH: repaired design, chain <= 4, 2 source steps (<= 2 reorgs), 1 fault, safety.
-\* Measured: 2 576 759 distinct states, depth 70
+\* Measured: 4 156 713 distinct / 15 438 697 generated states, depth 81, ~4 min on 4 busy cores
 CONSTANTS
   InitLen = 3
   MaxLen = 4
